@@ -56,6 +56,14 @@ func genValidCase(c *mon.Ctx, g *model.Gen, allowExt bool) (vc validCase, ok boo
 	vc.a = a
 	var err error
 	r0 := g.R.Intn(4)
+	if a.P == 1 && a.NoMeas != nil && len(a.Comps) == 0 && g.R.Intn(2) == 0 {
+		// the flag's VALUE is free (any unsigned integer asserts it) and must be kept
+		*a.NoMeas = []uint64{0, 2, 255, 1 << 40}[g.R.Intn(4)]
+	}
+	if a.P == 1 && a.NoMeas != nil && len(a.Comps) == 0 && g.R.Intn(2) == 0 {
+		// the flag's VALUE is free (any unsigned integer asserts it) and must be kept
+		*a.NoMeas = []uint64{0, 2, 255, 1 << 40}[g.R.Intn(4)]
+	}
 	if (r0 == 1 || r0 == 3) && a.NoMeas != nil {
 		*a.NoMeas = 1 // the setter can only assert the flag with value 1
 	}
